@@ -427,6 +427,127 @@ async fn c12_detached<TC: Configuration>(cx: &mut Cx, batch_a: &[(Vec<u8>, Vec<u
     }
 }
 
+/// K3: a reader and a publisher on ONE storage manager whose cache is cold (a directory re-created over an existing
+/// database, an expired or flushed entry).  The reader is parked after k gate passages (in particular between the
+/// database's answer and the manager's use of it), the publisher runs to completion, the reader resumes.  Afterwards
+/// every label is looked up through the same directory and a further publish is compared with serial application.
+/// Returns the failures found (attributed by the caller).
+async fn k3_case<TC: Configuration>(k: usize, reader_label: usize) -> Vec<String> {
+    let cfg = cfg_name::<TC>();
+    let mut fails = vec![];
+    let (base, labels) = base_history();
+    let ctl = Ctl::new(2);
+    let db = GateDb { inner: AsyncInMemoryDatabase::new(), ctl: ctl.clone() };
+    let mut hashes;
+    {
+        let d0 = gdir::<TC>(&db, false).await;
+        hashes = vec![d0.get_epoch_hash().await.unwrap().1];
+        for b in &base {
+            hashes.push(d0.publish(upd(b)).await.unwrap().1);
+        }
+    }
+    let dir = gdir::<TC>(&db, true).await; // cold cache
+    let pk = HardCodedAkdVRF {}.get_vrf_public_key().await.unwrap().as_bytes().to_vec();
+    let batch_a: Vec<(Vec<u8>, Vec<u8>)> = vec![(labels[0].clone(), vec![50, 0]), (labels[3].clone(), vec![50, 3]), (vec![b'n', 1], vec![50, 9])];
+    let batch_b: Vec<(Vec<u8>, Vec<u8>)> = vec![(vec![b'n', 2], vec![51, 1])];
+    ctl.post_gate.store(true, Ordering::SeqCst);
+    ctl.free_run.store(false, Ordering::SeqCst);
+    let mut handles = vec![];
+    {
+        let d = dir.clone();
+        let b = batch_a.clone();
+        handles.push(tokio::spawn(TASK.scope(0, async move { d.publish(upd(&b)).await.map(|e| (e.0, e.1, true)).map_err(|e| format!("{:?}", e)) })));
+        let d = dir.clone();
+        let l = labels[reader_label].clone();
+        let pk2 = pk.clone();
+        handles.push(tokio::spawn(TASK.scope(1, async move {
+            match d.lookup(AkdLabel(l.clone())).await {
+                Ok((p, e)) => Ok((e.0, e.1, lookup_verify::<TC>(&pk2, e.1, e.0, AkdLabel(l), p).is_ok())),
+                Err(e) => Err(format!("{:?}", e)),
+            }
+        })));
+    }
+    // reader: k gate passages; then the publisher until it is done; then everything else
+    let mut sched = vec![1usize; k];
+    sched.extend(vec![0usize; 400]);
+    sched.extend(vec![1usize; 400]);
+    drive(&ctl, &mut handles, &sched).await;
+    let mut outs = vec![];
+    for h in handles {
+        match tokio::time::timeout(Duration::from_secs(20), h).await {
+            Ok(Ok(o)) => outs.push(o),
+            _ => {
+                fails.push(format!("[cfg {} k {}]: a task did not finish", cfg, k));
+                return fails;
+            }
+        }
+    }
+    let what = format!("[cfg {} cold shared cache, reader of label #{} parked after {} gate passages while a publish completes]", cfg, reader_label, k);
+    match &outs[0] {
+        Ok((e, h, _)) => hashes.push({ let _ = e; *h }),
+        Err(e) => {
+            fails.push(format!("{}: the publish failed: {}", what, e));
+            return fails;
+        }
+    }
+    if let Ok((e, h, v)) = &outs[1] {
+        if (*e as usize) >= hashes.len() || hashes[*e as usize] != *h {
+            fails.push(format!("C13 {}: the reader's answer names (epoch {}, {}) which was never published", what, e, hx(h)));
+        } else if !*v {
+            fails.push(format!("C13 {}: the reader's answer names the published pair (epoch {}, {}) but does not verify", what, e, hx(h)));
+        }
+    }
+    // what the shared cache serves afterwards
+    let now = dir.get_epoch_hash().await.unwrap();
+    if now.1 != *hashes.last().unwrap() {
+        fails.push(format!("C16 {}: the directory now reports ({}, {}) but the publish returned {}", what, now.0, hx(&now.1), hx(hashes.last().unwrap())));
+    }
+    for l in labels.iter().take(6) {
+        if let Ok((p, e)) = dir.lookup(AkdLabel(l.clone())).await {
+            if lookup_verify::<TC>(&pk, e.1, e.0, AkdLabel(l.clone()), p).is_err() {
+                fails.push(format!("C16 {}: afterwards the lookup proof of {} served through the shared cache does not verify against ({}, {}) - a record older than the database's is cached", what, hb(l), e.0, hx(&e.1)));
+                break;
+            }
+        }
+    }
+    // a further publish builds on what the cache holds
+    let rb = dir.publish(upd(&batch_b)).await;
+    let sdb = AsyncInMemoryDatabase::new();
+    let sdir = Directory::<TC, _, _>::new(StorageManager::new_no_cache(sdb.clone()), HardCodedAkdVRF {}, AzksParallelismConfig::disabled()).await.unwrap();
+    for b in &base {
+        sdir.publish(upd(b)).await.unwrap();
+    }
+    sdir.publish(upd(&batch_a)).await.unwrap();
+    let sb = sdir.publish(upd(&batch_b)).await.unwrap();
+    match rb {
+        Ok(b) => {
+            if (b.0, b.1) != (sb.0, sb.1) {
+                fails.push(format!("C12 {}: the next publish returned ({}, {}) but serial application gives ({}, {})", what, b.0, hx(&b.1), sb.0, hx(&sb.1)));
+            }
+        }
+        Err(e) => fails.push(format!("C12 {}: the next publish failed: {:?}", what, e)),
+    }
+    fails
+}
+
+/// entry point used by the checks and by the K3 probe
+pub fn k3_probe(tier: u32) -> Vec<String> {
+    let rt = tokio::runtime::Builder::new_current_thread().enable_all().build().unwrap();
+    let mut all = vec![];
+    rt.block_on(async {
+        let kmax = if tier == 0 { 14 } else { 40 };
+        for k in 1..=kmax {
+            for rl in [0usize, 4] {
+                all.extend(k3_case::<W>(k, rl).await);
+                if tier != 0 {
+                    all.extend(k3_case::<E>(k, rl).await);
+                }
+            }
+        }
+    });
+    all
+}
+
 fn preempt_schedules(r: &mut Rng, ntasks: usize, max_ops: usize, count: usize, exhaustive: bool) -> Vec<Vec<usize>> {
     let mut out = vec![];
     if exhaustive && ntasks == 2 {
@@ -695,6 +816,18 @@ pub fn run(seed: u64, tier: u32, which: &str) -> Cx {
                 let cached = i % 2 == 0;
                 if i % 3 == 0 { c12_case::<E>(&mut cx, cached, &[b1.clone(), b2.clone()], s).await } else { c12_case::<W>(&mut cx, cached, &[b1.clone(), b2.clone()], s).await }
             }
+            // a reader parked between the database's answer and the cache fill while a publish completes (cold shared cache)
+            for k in 1..(if tier == 0 { 12 } else { 40 }) {
+                for f in k3_case::<W>(k, if k % 2 == 0 { 0 } else { 4 }).await {
+                    cx.fail(f);
+                }
+                if tier != 0 || k % 3 == 0 {
+                    for f in k3_case::<E>(k, 0).await {
+                        cx.fail(f);
+                    }
+                }
+                cx.stat("cold_cache_reader_parked");
+            }
             // tasks detached by the library (parallel preloading over a cold cache)
             let ba: Vec<(Vec<u8>, Vec<u8>)> = (0..8u8).map(|i| (vec![b'd', i], vec![6, i])).collect();
             let bb: Vec<(Vec<u8>, Vec<u8>)> = vec![(vec![b'd', 100], vec![7, 0])];
@@ -705,6 +838,13 @@ pub fn run(seed: u64, tier: u32, which: &str) -> Cx {
                 c12_case::<W>(&mut cx, i % 2 == 0, &[b1.clone(), b2.clone(), b3.clone()], s).await;
             }
         } else {
+            // the same scenario on behalf of C13 and C16 (messages carry their property's prefix)
+            for k in 1..(if tier == 0 { 12 } else { 40 }) {
+                for f in k3_case::<W>(k, if k % 2 == 0 { 4 } else { 0 }).await {
+                    cx.fail(f);
+                }
+                cx.stat("cold_cache_reader_parked");
+            }
             let per = if tier == 0 { 2 } else { 40 };
             let mut i = 0usize;
             for kind in 0..3u32 {
